@@ -145,7 +145,11 @@ class Rig:
         import __main__
         p = self.prof
         if via == 'runcall':
-            p.runcall(self.interp, body)
+            # keyword arguments named like parameters used inside the profiler must reach the callee
+            def target(b, **kw):
+                assert set(kw) == {'self', 'args', 'kw', 'kwds', 'cmd'}, kw
+                self.interp(b)
+            p.runcall(target, body, self=1, args=2, kw=3, kwds=4, cmd=5)
             return
         self.pending.append(body)
         text = {'str': '_c05_rig.interp(_c05_rig.pending.pop())', 'code': '_c05_rig.interp(_c05_rig.pending.pop())',
